@@ -136,6 +136,15 @@ obj.data.annotations["canary-weight"] = tostring(obj.canaryWeight)
 if obj.data.labels == nil then obj.data.labels = {} end
 obj.data.labels["canary"] = "true"
 `
+
+// an annotation only on steps with matches (header / query steps), nothing on weight-only steps: on an object without
+// user annotations the script's output then carries no annotations at all
+const luaMetaMatch = `
+if obj.matches and #obj.matches > 0 then
+    if obj.data.annotations == nil then obj.data.annotations = {} end
+    obj.data.annotations["canary-weight"] = tostring(1000 + #obj.matches)
+end
+`
 const luaNMatch = `
 local n = 0
 if obj.matches then n = #obj.matches end
@@ -146,14 +155,15 @@ return obj.data
 `
 
 var genScripts = map[string]string{
-	"ident":   luaPrelude + luaReturn,
-	"set":     luaPrelude + luaSet + luaReturn,
-	"setDeep": luaPrelude + luaSetDeep + luaReturn,
-	"append":  luaPrelude + luaAppend + luaReturn,
-	"meta":    luaPrelude + luaMeta + luaReturn,
-	"all":     luaPrelude + luaSet + luaSetDeep + luaAppend + luaMeta + luaNMatch + luaReturn,
+	"ident":     luaPrelude + luaReturn,
+	"set":       luaPrelude + luaSet + luaReturn,
+	"setDeep":   luaPrelude + luaSetDeep + luaReturn,
+	"append":    luaPrelude + luaAppend + luaReturn,
+	"meta":      luaPrelude + luaMeta + luaReturn,
+	"metaMatch": luaPrelude + luaMetaMatch + luaReturn,
+	"all":       luaPrelude + luaSet + luaSetDeep + luaAppend + luaMeta + luaNMatch + luaReturn,
 }
-var genScriptNames = []string{"ident", "set", "setDeep", "append", "meta", "all"}
+var genScriptNames = []string{"ident", "set", "setDeep", "append", "meta", "all", "metaMatch"}
 
 // paths a generated script may write (everything else is its frame)
 func touched(script string) (specPaths [][]string, meta bool) {
@@ -164,7 +174,7 @@ func touched(script string) (specPaths [][]string, meta bool) {
 		return [][]string{{"a", "b", "w"}}, false
 	case "append":
 		return [][]string{{"items"}}, false
-	case "meta":
+	case "meta", "metaMatch":
 		return nil, true
 	case "all":
 		return [][]string{{"weight"}, {"a", "b", "w"}, {"items"}, {"nmatch"}}, true
